@@ -269,11 +269,63 @@ fn amounts(cx: &Ctx) {
             ant_evm::AttoTokens::from_str(s).map(|_| ())
         });
     });
+    enumerate::strings("019.", 5, |s| {
+        if s.bytes().filter(|b| *b == b'.').count() <= 1 && s.bytes().next().map(|b| b.is_ascii_digit()).unwrap_or(false) {
+            amount_prints_what_was_parsed(cx, s);
+        }
+    });
+    amount_range_edge(cx);
     for l in [77usize, 78, 79, 100, 1000] {
         let s: String = std::iter::repeat('9').take(l).collect();
         cx.call("AttoTokens::from_str", json!({"nines": l}), s.as_bytes(), true, || ant_evm::AttoTokens::from_str(&s).map(|_| ()));
         let t = format!("1.{s}");
         cx.call("AttoTokens::from_str", json!({"one_point_nines": l}), t.as_bytes(), true, || ant_evm::AttoTokens::from_str(&t).map(|_| ()));
+    }
+}
+
+/// An accepted amount must print back as the number that was written (no formatter-independent reference needed:
+/// compare normalised digit strings). This is how a *silent* overflow — wrapping instead of panicking — shows.
+fn amount_prints_what_was_parsed(cx: &Ctx, s: &str) {
+    let r = cx.call("AttoTokens::from_str", json!(s), s.as_bytes(), true, || ant_evm::AttoTokens::from_str(s).map(|v| v.to_string()));
+    if let Some(Ok(printed)) = r {
+        let norm = |t: &str| -> String {
+            let (i, f) = t.split_once('.').unwrap_or((t, ""));
+            let i = i.trim_start_matches('0');
+            let mut f = f.trim_end_matches('0').to_string();
+            while f.len() < 18 {
+                f.push('0');
+            }
+            format!("{}.{f}", if i.is_empty() { "0" } else { i })
+        };
+        if norm(s) != norm(&printed) {
+            cx.run.violation("no-silent-overflow", "AttoTokens::from_str", format!("from_str({s:?}) was accepted but prints as {printed}: the value wrapped or was mangled"), json!({"parser": "AttoTokens::from_str", "input": s, "printed": printed}));
+        }
+    }
+}
+
+fn amount_range_edge(cx: &Ctx) {
+    // around the largest representable amount: whole part floor(MAX/10^18) -1/0/+1 x fractions around MAX's own
+    let (units, frac) = crate::refnum::Dec::u256_max().split_pow10(18);
+    let one = crate::refnum::Dec::from_u64(1);
+    let us = [units.sub(&one).unwrap().to_string(), units.to_string(), units.add(&one).to_string()];
+    let f: u64 = frac.parse().unwrap();
+    let mut fracs: Vec<String> = vec![String::new(), "0".into(), "9".into(), "999999999999999999".into(), "000000000000000001".into()];
+    for d in [-2i64, -1, 0, 1, 2, 1000] {
+        fracs.push(format!("{:018}", (f as i64 + d) as u64));
+    }
+    for u in &us {
+        amount_prints_what_was_parsed(cx, u);
+        for fr in &fracs {
+            amount_prints_what_was_parsed(cx, &format!("{u}.{fr}"));
+        }
+    }
+    for k in [76usize, 77, 78] {
+        // 10^k and 10^k - 1 as whole-token strings, with and without a fraction
+        let p = format!("1{}", "0".repeat(k));
+        let n = "9".repeat(k);
+        for t in [p.clone(), n.clone(), format!("{p}.5"), format!("{n}.999999999999999999")] {
+            amount_prints_what_was_parsed(cx, &t);
+        }
     }
 }
 
